@@ -2693,9 +2693,12 @@ func (db *DB) ApplyLTXNoLock(path string, fatalOnError bool) (retErr error) {
 		return fmt.Errorf("set pos: %w", err)
 	}
 
-	// Rewrite SHM so that the transaction is visible.
-	if err := db.updateSHM(); err != nil {
-		return fmt.Errorf("update shm: %w", err)
+	// Rewrite SHM so that the transaction is visible. A database that has been
+	// deleted has no SHM file.
+	if dec.Header().Commit > 0 {
+		if err := db.updateSHM(); err != nil {
+			return fmt.Errorf("update shm: %w", err)
+		}
 	}
 
 	// Invalidate entire database if this was a snapshot.
